@@ -137,6 +137,22 @@ func c09Cfg(p c09Params) *WorldCfg {
 		cfg.Defs["t1"] = td
 		cfg.SeedCreate = []string{"t1"}
 		cfg.SeedStmts = []*Stmt{{Kind: "insert", Table: "t1", Cols: []string{"a", "s"}, Rows: [][]any{{int32(1), "x"}, {int32(3), "q"}}}}
+	case "t1-long":
+		// rows of 2 100 bytes (no index on the wide column): the UPDATE record of an in-place change carries both
+		// images and is larger than a page; a multi-row UPDATE puts an earlier record of the same transaction
+		// in front of it
+		td := cfg.Defs["t1"]
+		td.Idx = []string{"skip", ""}
+		cfg.Defs["t1"] = td
+		cfg.SeedCreate = []string{"t1"}
+		as := []string{"a", "s"}
+		cfg.SeedStmts = []*Stmt{{Kind: "insert", Table: "t1", Cols: as, Rows: [][]any{{int32(1), "short1"}, {int32(2), bigStr("L2", 2100)}, {int32(3), bigStr("L3", 2100)}}}}
+		cfg.Stmts = []*Stmt{
+			{Kind: "update", Table: "t1", Set: []SetItem{{"s", bigStr("U", 2100)}}, Where: Leaf{"a", ">=", int32(1)}},
+			{Kind: "update", Table: "t1", Set: []SetItem{{"s", bigStr("V", 2100)}}, Where: Leaf{"a", "=", int32(2)}},
+			{Kind: "insert", Table: "t1", Cols: as, Rows: [][]any{{int32(4), "short"}}},
+			{Kind: "delete", Table: "t1", Where: Leaf{"a", "=", int32(1)}},
+		}
 	case "t1":
 		cfg.SeedCreate = []string{"t1"}
 	case "t1-2pages":
@@ -150,6 +166,14 @@ func c09Cfg(p c09Params) *WorldCfg {
 		domain = func(td *TableDef, c ColDef) []any {
 			if c.Name == "a" {
 				return append(append([]any{}, c17HashBoundaryKeys()...), int32(7))
+			}
+			return nil
+		}
+	}
+	if p.Seed == "t1-long" {
+		domain = func(td *TableDef, c ColDef) []any {
+			if c.Name == "a" {
+				return []any{int32(1), int32(2), int32(3), int32(4)}
 			}
 			return nil
 		}
@@ -168,7 +192,7 @@ func c09Cfg(p c09Params) *WorldCfg {
 			}
 		}
 		for _, t := range []string{"t1", "t2"} {
-			if p.Seed == "dealloc" || p.Seed == "t1-btree" || p.Seed == "t1-hash" {
+			if p.Seed == "dealloc" || p.Seed == "t1-btree" || p.Seed == "t1-hash" || p.Seed == "t1-long" {
 				break
 			}
 			if t == "t2" && w.cfg.MemKB < 64 {
@@ -251,7 +275,7 @@ func init() {
 			}
 			// "dealloc": with 10 or 12 frames the pages of emptied index nodes are evicted and their ids are
 			// reused for heap pages; with 32 frames they stay flagged in the pool until the restart
-			combos = append(combos, ms{40, "dealloc"}, ms{48, "dealloc"}, ms{128, "dealloc"}, ms{128, "t1-btree"}, ms{128, "t1-hash"})
+			combos = append(combos, ms{40, "dealloc"}, ms{48, "dealloc"}, ms{128, "dealloc"}, ms{128, "t1-btree"}, ms{128, "t1-hash"}, ms{128, "t1-long"})
 			for _, cb := range combos {
 				p := c09Params{MemKB: cb.mem, Seed: cb.seed}
 				sc := core.SeqConfig{Name: fmt.Sprintf("c09/%s/mem%d", cb.seed, cb.mem), Params: p,
